@@ -293,10 +293,15 @@ def apply_freeze(model, plan, keep_some=False):
         path = cands[j]
         fn = NonTrainable if item["mode"] == "NT" else non_trainable
         try:
-            model = eqx.tree_at(lambda m, p=path: _get_path(m, p), model, replace_fn=fn)
             import jax.tree_util as jtu
 
-            applied.append({"path": jtu.keystr(path), "mode": item["mode"]})
+            # the user's INTENT: every inexact array under the node is to be frozen. Recorded as
+            # indices in leaf order (wrappers add node levels but no leaves, so order is stable)
+            pre = jtu.keystr(path)
+            idx = [i for i, (p, leaf) in enumerate(jtu.tree_flatten_with_path(model)[0])
+                   if eqx.is_inexact_array(leaf) and jtu.keystr(p).startswith(pre)]
+            model = eqx.tree_at(lambda m, p=path: _get_path(m, p), model, replace_fn=fn)
+            applied.append({"path": pre, "mode": item["mode"], "leaf_idx": idx})
         except Exception:  # noqa: BLE001 - un-addressable node: skip
             continue
     return model, applied
